@@ -7,5 +7,7 @@ From Coq Require Extraction ExtrOcamlBasic.
 From Chess3 Require Export Model.TimeCtl.
 From Chess3 Require Export Model.BoardDef.
 From Chess3 Require Export Model.BoardStreams.
+From Chess3 Require Export Model.Eval.
+From Chess3 Require Export Spec.EvalSym.
 
 Extraction Language OCaml.
